@@ -1,5 +1,5 @@
 #!/bin/bash
 # usage: seed_matrix.sh [parallel jobs] [filter regex on seed ids]   -> appends to /verif/seeded/matrix.log
 P=${1:-2}; F=${2:-.}
-grep -v '^#' /verif/tools/seed_matrix.txt | grep -E "^($F)" | while read sid prop only; do echo "$sid $prop $only"; done | \
-  xargs -P $P -L 1 bash -c 'VERIF_JOBS=${VERIF_JOBS:-6} VERIF_ONLY="$2" /verif/tools/try_seed.sh $0 $1 quick' | tee -a /verif/seeded/matrix.log
+grep -v '^#' /verif/tools/seed_matrix.txt | grep -E "^($F)" | while read sid prop only; do echo "$sid $prop ${only:--}"; done | \
+  xargs -P $P -L 1 bash -c 'o="$2"; [ "$o" = "-" ] && o=""; VERIF_JOBS=${VERIF_JOBS:-6} VERIF_ONLY="$o" /verif/tools/try_seed.sh $0 $1 quick' | tee -a /verif/seeded/matrix.log
